@@ -22,8 +22,23 @@ ShapeBox(b, stroke, sw, k, ws, tr) ==
   LET geo == IF tr THEN ScaleBox(b, k) ELSE b
       d   == IF ws /\ stroke = "red" THEN RDiv(IF tr THEN RMul(sw, k) ELSE sw, R(2)) ELSE RZero
   IN Grow(geo, d)
+CircleBox  == <<R(-2), R(-1), R(12), R(13)>>            \* Circle(5, 6, 7)
+EllipseBox == <<R(-2), R(3), R(12), R(9)>>              \* Ellipse(5, 6, 7, 3)
+PolyBox    == <<R(-2), R(0), R(6), R(7)>>               \* Polyline/Polygon (0,0) (3,4) (6,1) (-2,7)
+LineBox    == <<R(1), R(2), R(3), R(5)>>                \* SimpleLine(1, 2, 3, 5)
+\* an ellipse whose own transform is rotate(90) then scale(k): (x, y) -> k (-y, x)
+EllipseRotBox(stroke, sw, k, ws, tr) ==
+  LET geo == IF tr THEN ScaleBox(<<R(-9), R(-2), R(-3), R(12)>>, k) ELSE EllipseBox
+      d   == IF ws /\ stroke = "red" THEN RDiv(IF tr THEN RMul(sw, k) ELSE sw, R(2)) ELSE RZero
+  IN Grow(geo, d)
 ContBox(cont, stroke, sw, k, ws, tr) ==
-  CASE cont = "rect"    -> ShapeBox(RectBox, stroke, sw, k, ws, tr)
+  CASE cont = "circle"   -> ShapeBox(CircleBox, stroke, sw, k, ws, tr)
+    [] cont = "ellipse"  -> ShapeBox(EllipseBox, stroke, sw, k, ws, tr)
+    [] cont = "polyline" -> ShapeBox(PolyBox, stroke, sw, k, ws, tr)
+    [] cont = "polygon"  -> ShapeBox(PolyBox, stroke, sw, k, ws, tr)
+    [] cont = "line"     -> ShapeBox(LineBox, stroke, sw, k, ws, tr)
+    [] cont = "ellipse_rot" -> EllipseRotBox(stroke, sw, k, ws, tr)
+    [] cont = "rect"    -> ShapeBox(RectBox, stroke, sw, k, ws, tr)
     [] cont = "path"    -> ShapeBox(Union(PathBox, Path2Box), stroke, sw, k, ws, tr)
     [] cont = "subpath" -> ShapeBox(PathBox, stroke, sw, k, ws, tr)
     \* group { rect (the stroke under test), path (always stroked red, width 2) }, the group carries scale(k)
@@ -54,7 +69,7 @@ Init ==
           /\ arg = <<c, u, v, th0, <<R(0), R(1)>>, dir, TRUE>>
           /\ exp = ArcBox(c, u, v, th0, <<R(0), R(1)>>, dir, TRUE)
   \/ /\ kind = "cont"       \* shapes and containers: union of members, stroke growth only when painted
-     /\ \E cont \in {"rect", "path", "subpath", "group", "nested"}, stroke \in {"none", "unset", "red"},
+     /\ \E cont \in {"rect", "path", "subpath", "group", "nested", "circle", "ellipse", "polyline", "polygon", "line", "ellipse_rot"}, stroke \in {"none", "unset", "red"},
            sw \in {R(3), Q(1, 2)}, k \in {R(1), R(2), Q(1, 2)}, ws \in BOOLEAN, tr \in BOOLEAN :
           /\ arg = <<cont, stroke, sw, k, ws, tr>>
           /\ exp = ContBox(cont, stroke, sw, k, ws, tr)
